@@ -691,7 +691,9 @@ func runC19(ctx *harness.Ctx) {
 	types := map[string]int64{}
 	checkNode := func(t harness.T, cs *harness.Case, n ast.Node, parsed bool) bool {
 		var ds []harness.Discrepancy
-		add := func(sig, msg string) { ds = append(ds, harness.Discrepancy{Sig: sig, Msg: msg + " case=" + cs.Entry + " " + q(trunc(cs.Input, 160)) + " aux=" + fmt.Sprint(cs.Aux)}) }
+		add := func(sig, msg string) {
+			ds = append(ds, harness.Discrepancy{Sig: sig, Msg: msg + " case=" + cs.Entry + " " + q(trunc(cs.Input, 160)) + " aux=" + fmt.Sprint(cs.Aux)})
+		}
 		c19Node(n, parsed, add, func(key string) { ctx.NonTrivial(harness.Hash(key)) })
 		if !parsed {
 			c19WalkFields(n, add)
